@@ -2,7 +2,7 @@ import json, shutil, vlib
 from props import gocommon
 
 THEOREMS = ["Folang.Props.C03." + t for t in """record_shape union_interface union_case_struct ctor_is_func ctor_is_var
-ctor_ref_matches_decl qualified_name call_full call_partial call_partial_arity call_too_many call_carries_type_args call_no_type_args root_func_shape
+ctor_ref_matches_decl qualified_name call_full call_partial call_partial_arity call_partial_bound paArgs_inert call_too_many call_carries_type_args call_no_type_args root_func_shape
 unit_result_is_no_result""".split()]
 
 ASSUMPTIONS = [
